@@ -217,7 +217,7 @@ def run_pass(tier: str, seed: int, want: set[str] | None = None) -> dict:
 
     reg = load_registered_codemods()
     sg = {c.id for c in reg.codemods if isinstance(c.detector, SemgrepRuleDetector)}
-    seeds = e2e.load_seeds()
+    seeds = e2e.load_seeds(include_findings=True)
     extra = json.loads((common.VERIF / "harness" / "corpus" / "extra_seeds.json").read_text())
     added = json.loads((common.VERIF / "harness" / "corpus" / "added_imports.json").read_text())
     rng = random.Random(f"progspace-{seed}")
